@@ -43,6 +43,7 @@ def obligations(ctx: Ctx):
 
     _closure = ["octave_mcp.core.validator:Validator.validate", "octave_mcp.core.schema_extractor:extract_schema_from_document", "octave_mcp.core.constraints:ConstraintChain.parse", "octave_mcp.core.constraints:ConstraintChain.evaluate"]
     obs.append(Ob(f"{P}.F1.state", "F", "a verdict is a function of the schema text and the document of THIS call: the closure of the schema extractor, the chain reader and the validator writes no process state (module-level objects such as shared default policies, memoised mutable objects) that a later call could read", _closure, _FO.ob_no_effects(_closure, ("global_write",))))
+    obs.append(Ob(f"{P}.F1.escape", "F", "no function in that closure hands out a mutable module-level object (a shared default PolicyDefinition) that a later schema extraction or validation could edit", _closure, _FO.ob_no_global_escape(_closure, {"octave_mcp.schemas.loader:get_builtin_schema": "hands out the packaged SchemaDefinition objects; their consumers (the validator closure) are proved not to store through their parameters (C09.F1.assigns)", "octave_mcp.mcp.compile_grammar:CompileGrammarTool.execute": "the response envelope carries the module's USAGE_HINTS table (str -> str) by reference; execute is an entry point - nothing in the package receives its result, and the server serialises it"})))
     obs.append(Ob(f"{P}.F1.memo", "F", "memoised functions in that closure are keyed by arguments whose equality implies they are indistinguishable (True == 1 == 1.0 must not share an entry)", _closure, _FO.ob_memo_keys(_closure)))
     obs.append(Ob(f"{P}.B1", "B", "chain texts x values through the real parse+evaluate against an independent reference", ["octave_mcp.core.constraints:ConstraintChain.parse", "octave_mcp.core.constraints:ConstraintChain.evaluate"], C08_b.ob_chains, timeout=3000))
     obs.append(Ob(f"{P}.B2", "B", "schema documents x instance documents through the real parser, extractor and Validator", ["octave_mcp.core.validator:Validator.validate", "octave_mcp.core.schema_extractor:extract_schema_from_document"], C08_b.ob_docs, timeout=3000))
